@@ -208,6 +208,10 @@ package parser
 
 //@ func (p *Parser) expectPeekVarOrAutoVar
 //@   include ParseFrame
+// the compared var is the configured var name, or the argument at the configured position (C11)
+//@   ensures [C11:var-select] (result3 == nil && result1 != nil) ==> (*result0 == (p.commandConfig.AutoVarCommands[old(p.peekToken.Literal)].VarNameArgPosition != nil
+//@        ? result1.Args[*(p.commandConfig.AutoVarCommands[old(p.peekToken.Literal)].VarNameArgPosition)] : p.commandConfig.AutoVarCommands[old(p.peekToken.Literal)].VarName))
+//@   ensures [C11:cmd-name] (result3 == nil && result1 != nil) ==> (result1.Name != nil && result1.Name.Value == old(p.peekToken.Literal))
 //@   ensures [C11,C18:autovar-taken] (result3 == nil && old(p.peekToken.Type) != token.VAR) ==> (result0 != nil && result1 != nil)
 //@   ensures [C06:slot] result3 == nil ==> (ImpOK(result2) && (result2 == nil || fresh(result2)))
 //@   ensures [C11,C18:autovar-results] (result3 == nil && result1 != nil) ==> (result0 != nil && fresh(result1))
@@ -499,6 +503,10 @@ package parser
 
 //@ func (p *Parser) parseLeafBooleanExpression
 //@   include ParseFrame
+// an AutoVar leaf - with or without '!' - carries its command as preamble and compares a var (C11)
+//@   exit [C11:preamble] (result2 == nil && isAutoVar) ==> (result0 != nil && result0.Type == token.VAR && result0.PreambleStatement != nil && fresh(result0.PreambleStatement) && result0.Operand.Type == token.IDENT)
+//@   exit [C11:no-preamble] (result2 == nil && !isAutoVar) ==> (result0 != nil && result0.PreambleStatement == nil)
+//@   exit [C11:not-compares-zero] (result2 == nil && usedNotOperator && result0.Type == token.VAR) ==> (result0.Operator == token.EQ && result0.ComparisonValue == "0")
 //@   ensures [C06:slot] result2 == nil ==> (ImpOK(result1) && (result1 == nil || fresh(result1)))
 //@   ensures [C18:leaf-fresh] result2 == nil ==> (result0 != nil && fresh(result0))
 //@   ensures [C20:stack-balanced] result2 == nil ==> (SameStack(p.breakStack, old(p.breakStack)) && SameStack(p.continueStack, old(p.continueStack)))
